@@ -7,13 +7,15 @@ import os
 root = "/verif/seeded"
 needs = json.load(open(f"{root}/NEEDS.json"))
 rows = []
-for d in sorted(glob.glob(f"{root}/C??-?")):
+for d in sorted(glob.glob(f"{root}/C??-?") + glob.glob(f"{root}/C??r?-?")):
     s = os.path.basename(d)
     conf = json.load(open(f"{d}/confirm.json")) if os.path.exists(f"{d}/confirm.json") else {}
     dets = [json.load(open(p)) for p in sorted(glob.glob(f"{d}/detect_*.json"))]
     meta = {
         "seed": s,
-        "breaks_property": s.split("-")[0],
+        "breaks_property": s[:3],
+        "round": 2 if "r2" in s else 1,
+        "first_run_before_any_strengthening": needs.get(s, {}).get("first_run"),
         "change": needs.get(s, {}).get("change"),
         "needs_in_order_to_manifest": needs.get(s, {}).get("needs"),
         "confirmation": {
@@ -26,13 +28,15 @@ for d in sorted(glob.glob(f"{root}/C??-?")):
                  if os.path.exists(f"{d}/patch_rebased.diff") else None),
     }
     json.dump(meta, open(f"{d}/meta.json", "w"), indent=1)
-    rows.append((s, needs.get(s, {}).get("change", ""), conf.get("confirmed"), dets))
+    rows.append((s, needs.get(s, {}).get("change", ""), conf.get("confirmed"), dets, needs.get(s, {}).get("first_run", "")))
 with open(f"{root}/RESULTS.md", "w") as f:
     f.write("# Seeded property-breaking changes: which check reports which\n\n"
             "Produced by tools/seed_matrix.sh + tools/seed_meta.py (apply the patch to /repo, run the quick tier of the check, revert).\n\n"
-            "| seed | change | confirmed (suite 690/3, demo fails/passes) | detected by (quick tier) | first reported case |\n|---|---|---|---|---|\n")
-    for s, ch, conf, dets in rows:
+            "Round-2 seeds (r2) were written after round 1 was published to the agents as 'already done'; the last column says what happened the first "
+            "time each was tried, before any check was changed.\n\n"
+            "| seed | change | confirmed (suite 690/3, demo fails/passes) | detected by (quick tier) | first reported case | first run |\n|---|---|---|---|---|---|\n")
+    for s, ch, conf, dets, fr in rows:
         det = ", ".join(f"{x['check']}{'' if x.get('detected') else ' (missed)'}" for x in dets) or "not run"
         first = next((x.get("first_case") or "" for x in dets if x.get("detected")), "")
-        f.write(f"| {s} | {ch} | {conf} | {det} | {first[:110]} |\n")
+        f.write(f"| {s} | {ch} | {conf} | {det} | {first[:110]} | {fr} |\n")
 print("meta written for", len(rows))
